@@ -1154,7 +1154,9 @@ class TLSRecordLayer(object):
                                 reneg = True
                         # Send no_renegotiation if we're not negotiating
                         # a connection now, then try again
-                        if reneg and self.session:
+                        # (the session object exists already during the
+                        # handshake, the connection is open only after it)
+                        if reneg and self.session and not self.closed:
                             alertMsg = Alert()
                             alertMsg.create(AlertDescription.no_renegotiation,
                                             AlertLevel.warning)
